@@ -664,8 +664,8 @@ func TestC16(t *testing.T) {
 	r := lib.Start(t, "C16")
 	defer r.Finish()
 	r.Rule("one scenario = live proxy + 4 scripted backends + one client (763/767/775): initial join, then 1-3 rounds of 1-4 barrier-released Connect/ConnectWithIndication calls on the same player (PRNG targets, delays, sleeping ServerPreConnectEvent/ServerConnectedEvent/KickedFromServerEvent subscribers) plus a final sequential probe request, then client disconnect; evaluations = requests decided; distinct = distinct (client protocol, concurrency, sorted backend scripts targeted in the round, sorted result statuses)")
-	r.Assume("fake peers (harness/e2e) speak login/config/play correctly; logical stamps 'about to act' are taken before the act; a state that stays wrong and unchanged for >= 3 s in an otherwise idle in-memory system will not repair itself")
-	n := r.N(150, 5000)
+	r.Assume("fake peers (harness/e2e) speak login/config/play correctly; logical stamps 'about to act' are taken before the act; a state that stays wrong and unchanged for >= 4 s in an otherwise idle in-memory system will not repair itself")
+	n := r.N(150, 10000)
 	workers := 6
 	if v := os.Getenv("C16_WORKERS"); v != "" {
 		fmt.Sscanf(v, "%d", &workers)
